@@ -127,8 +127,15 @@ def probe_static_value_call():
     return _probe_case(Case({0x1000: a, 0x1100: b, 0x1200: c}, ncd=0), [{"balances": {0x1100: 10}}])
 
 
+def probe_extcodehash_funded():
+    # EXTCODEHASH of an account that exists (non-zero balance) but has no code is keccak256("") per EIP-1052
+    code = asm([0x3000, "EXTCODEHASH", 0, "MSTORE", 32, 0, "RETURN"])
+    return _probe_case(Case({0x1000: code}, ncd=0, bal_addrs=[0x1000, 0x3000]), [{"balances": {0x3000: 1}}])
+
+
 PROBES = {
     "C01": [
+        ("extcodehash-of-funded-account-without-code-is-zero", probe_extcodehash_funded),
         ("msize-ignores-read-expansion", probe_msize),
         ("returndatacopy-zero-size-out-of-bounds-does-not-halt", probe_returndatacopy_zero_oob),
         ("sha3-of-85-bytes-starting-0xff-returns-create2-magic", probe_sha3_create2_magic),
